@@ -85,7 +85,7 @@ def main():
         release = rng.random() < 0.3
         jobs = 4 if rng.random() < 0.3 else 1
         tasks.append((i, h, origin, release, jobs, cache))
-    with mp.get_context("fork").Pool(16) as pool:
+    with mp.get_context("fork").Pool(common.workers()) as pool:
         for r in pool.imap_unordered(replay_task, tasks):
             rep.traces += 1
             rep.evaluations += r["invocations"] + r["oracle_builds"]
